@@ -178,8 +178,8 @@ def inst(cls, n, m):
     return {"S": "s", "M11": (1, 1), "R": (1, n), "C": (n, 1), "Q": (n, n), "T": (m, n)}[cls]
 
 
-def compat_shapes(ca, cb, rng):
-    n, m = rng.sample(DIMS, 2)
+def compat_shapes(ca, cb, rng, dims=None):
+    n, m = dims if dims else rng.sample(DIMS, 2)
     sa = inst(ca, n, m)
     # vectors matching a T = m x n matrix: row 1 x n, column m x 1
     def vec(cls, other):
@@ -477,4 +477,28 @@ def generate(tier, rng):
 
 
 def shrink(case):
-    return []
+    """smaller instances of the same (operator, kind, class pair): minimal dimensions, few distinct literals.
+    (A case is a rendered program, so candidates are re-generated rather than cut down.)"""
+    import random, zlib
+    t = case.get("tags") or {}
+    if t.get("stream") not in ("compatible", "unary", "no-arm") or "-" not in t.get("arm", "-") and t.get("stream") != "unary":
+        return []
+    rng = random.Random(zlib.crc32(case["sx"].encode()))
+    op, k = t["op"], t["kind"]
+    sym = dict(BINOPS + UNOPS)[op]
+    un = op in ("neg", "not")
+    out = []
+    cur = len(case["impl"]["srcs"][0])
+    for dims in [(2, 3), (3, 2)]:
+        for budget in (1, 2, 4):
+            for _ in range(4):
+                if t["stream"] == "unary" or un:
+                    ca = t["arm"].split("-")[0]
+                    sa, sb = inst(ca, dims[0], dims[1]), "s"
+                else:
+                    ca, cb = t["arm"].split("-")
+                    sa, sb = compat_shapes(ca, cb, rng, dims)
+                c = make_case(op, sym, k, sa, sb, rng, t["stream"], t["arm"], budget=budget, unary=un, boundary_p=0.3)
+                if len(c["impl"]["srcs"][0]) < cur:
+                    out.append(c)
+    return out
